@@ -9,6 +9,7 @@ import (
 	"fmt"
 	"go/ast"
 	"go/types"
+	"strconv"
 	"strings"
 	"unicode"
 	"unicode/utf8"
@@ -496,6 +497,29 @@ func (m *c13M) sprintf(format string, args []c13V, at ast.Node) c13V {
 	return c13str(fmt.Sprintf(format, goargs...))
 }
 
+// appendBytes is append(base, txt...) for a byte slice (nil allowed) the evaluator holds concretely.
+func (m *c13M) appendBytes(base c13V, txt string, fn *types.Func, why string, a ...any) c13V {
+	var t types.Type
+	if sig, ok := fn.Type().(*types.Signature); ok && sig.Results().Len() == 1 {
+		t = sig.Results().At(0).Type()
+	}
+	switch base.k {
+	case c13Nil:
+		base = c13V{k: c13Slice, typ: t}
+	case c13Slice:
+		if base.typ == nil {
+			base.typ = t
+		}
+	default:
+		return c13unk(why+" (%s)", append(a, base.why)...)
+	}
+	out := c13V{k: c13Slice, typ: base.typ, el: append(make([]c13V, 0, len(base.el)+len(txt)), base.el...)}
+	for i := 0; i < len(txt); i++ {
+		out.el = append(out.el, c13int(int64(txt[i]), types.Typ[types.Uint8]))
+	}
+	return out
+}
+
 func c13HasMethod(t types.Type, name string) bool {
 	for _, tt := range []types.Type{t, types.NewPointer(t)} {
 		ms := types.NewMethodSet(tt)
@@ -679,6 +703,89 @@ func (m *c13M) native(fr *c13Frame, full string, fn *types.Func, recv *c13V, cal
 			return one(c13unk("Itoa of unknown"))
 		}
 		return one(c13str(fmt.Sprint(a[0].i)))
+	case "strconv.FormatInt", "strconv.FormatUint":
+		a := m.args(fr, call)
+		if len(a) != 2 || a[0].k != c13Int || a[1].k != c13Int {
+			return one(c13unk("%s of unknown (%s%s)", full, a[0].why, a[1].why))
+		}
+		if a[1].i < 2 || a[1].i > 36 {
+			m.gopanic("%s: illegal base %d at %s", full, a[1].i, m.c.P.Pos(call.Pos()))
+		}
+		if full == "strconv.FormatUint" {
+			return one(c13str(strconv.FormatUint(uint64(a[0].i), int(a[1].i))))
+		}
+		return one(c13str(strconv.FormatInt(a[0].i, int(a[1].i))))
+	case "strconv.AppendInt", "strconv.AppendUint":
+		a := m.args(fr, call)
+		if len(a) != 3 || a[1].k != c13Int || a[2].k != c13Int {
+			return one(c13unk("%s of unknown (%s%s)", full, a[1].why, a[2].why))
+		}
+		if a[2].i < 2 || a[2].i > 36 {
+			m.gopanic("%s: illegal base %d at %s", full, a[2].i, m.c.P.Pos(call.Pos()))
+		}
+		var txt string
+		if full == "strconv.AppendUint" {
+			txt = strconv.FormatUint(uint64(a[1].i), int(a[2].i))
+		} else {
+			txt = strconv.FormatInt(a[1].i, int(a[2].i))
+		}
+		return one(m.appendBytes(a[0], txt, fn, "%s to an unknown slice", full))
+	case "unicode/utf8.AppendRune":
+		a := m.args(fr, call)
+		if len(a) != 2 || a[1].k != c13Int {
+			return one(c13unk("utf8.AppendRune of unknown"))
+		}
+		return one(m.appendBytes(a[0], string(utf8.AppendRune(nil, rune(a[1].i))), fn, "utf8.AppendRune to an unknown slice"))
+	case "unicode/utf8.RuneLen":
+		a := m.args(fr, call)
+		if a[0].k != c13Int {
+			return one(c13unk("RuneLen of unknown"))
+		}
+		return one(c13int(int64(utf8.RuneLen(rune(a[0].i))), intT))
+	case "fmt.Appendf":
+		a := m.args(fr, call)
+		if len(a) < 2 || a[1].k != c13Str || call.Ellipsis.IsValid() {
+			return one(c13unk("Appendf format unknown"))
+		}
+		s := m.sprintf(a[1].s, a[2:], call)
+		if s.k != c13Str {
+			return one(s)
+		}
+		return one(m.appendBytes(a[0], s.s, fn, "fmt.Appendf to an unknown slice"))
+	case "fmt.Sprint":
+		a := m.args(fr, call)
+		if call.Ellipsis.IsValid() {
+			return one(c13unk("Sprint with spread arguments"))
+		}
+		// Sprint = %v of each operand, a space between two operands when neither is a string
+		var sb strings.Builder
+		for i, v := range a {
+			if v.k != c13Int && v.k != c13Str && v.k != c13Bool {
+				return one(c13unk("Sprint argument %d is not computable (%s)", i+1, v.why))
+			}
+			if i > 0 && v.k != c13Str && a[i-1].k != c13Str {
+				sb.WriteByte(' ')
+			}
+			part := m.sprintf("%v", []c13V{v}, call)
+			if part.k != c13Str {
+				return one(part)
+			}
+			sb.WriteString(part.s)
+		}
+		return one(c13str(sb.String()))
+	case "strings.Join":
+		a := m.args(fr, call)
+		if len(a) != 2 || a[0].k != c13Slice || a[1].k != c13Str {
+			return one(c13unk("strings.Join of unknown"))
+		}
+		parts := make([]string, len(a[0].el))
+		for i, e := range a[0].el {
+			if e.k != c13Str {
+				return one(c13unk("strings.Join of a slice with an unknown element (%s)", e.why))
+			}
+			parts[i] = e.s
+		}
+		return one(c13str(strings.Join(parts, a[1].s)))
 	case "unicode/utf8.RuneCountInString":
 		a := m.args(fr, call)
 		if a[0].k != c13Str {
